@@ -126,6 +126,8 @@ class ExprMixin:
     def as_arg(self, arg, storage, pty=None):
         """emit an argument for a parameter with the given storage"""
         if storage == 'val':
+            if pty is not None and pty.kind == 'opaque' and self.skip(arg).get('kind') == 'CXXNullPtrLiteralExpr':
+                return '(%s){0}' % pty.c            # nullptr passed as std::nullptr_t (an opaque value type in the C text)
             return self.expr(arg)
         a = self.skip(arg) if self.skip(arg).get('valueCategory') in ('lvalue', 'xvalue') else arg
         core = self.skip(arg)
@@ -219,6 +221,9 @@ class ExprMixin:
                 return self.static_var(d)
             if d is not None and self.parent.get(rid, {}).get('kind') in ('NamespaceDecl', None) :
                 return self.static_var(d)
+            if r.get('name') == 'npos' and 'unsigned long' in str(r.get('type', {})) + str(n.get('type', {})):
+                self.rules['npos'] += 1
+                return 'SV_NPOS'          # std::string_view::npos / std::string::npos: size_t(-1)
             raise Unsupported('reference to unknown variable %s at %s' % (r.get('name'), self.where(n)))
         if rk == 'EnumConstantDecl':
             return self.enum_const(rid, r)
@@ -866,6 +871,24 @@ class ExprMixin:
         ot = self.etype(args[0])
         h = self.lib_operator(ot, name[len('operator'):].strip(), args, n, rvalue)
         if h is not None: return h
+        if name == 'operator+' and len(args) == 2:
+            # concatenation of an abstract string with a character literal / another abstract string (library template, no
+            # declaration to stub): one stub per operand shape; the text is not modelled, the spec gives the result an identity
+            t1 = self.etype(args[1])
+            kinds = (ot.kind, t1.kind)
+            if 'opaque' in kinds and all(k in ('opaque', 'ptr') for k in kinds):
+                st = ot if ot.kind == 'opaque' else t1
+                texts = []; protos = []; shape = []
+                for i, (a, t) in enumerate(((args[0], ot), (args[1], t1))):
+                    if t.kind == 'opaque':
+                        tn = self.tmp('s'); self.pre.append('%s %s = %s;' % (t.c, tn, self.expr(a, rvalue=True)))
+                        texts.append('&' + tn); protos.append('const %s* a%d' % (t.c, i)); shape.append(t.c)
+                    else:
+                        texts.append(self.expr(a, rvalue=True)); protos.append('const char* a%d' % i); shape.append('cstr')
+                cn = '%s_op_plus__%s' % (st.c, '_'.join(shape))
+                self.autostubs.setdefault(cn, '%s %s(%s);' % (st.c, cn, ', '.join(protos))); self.fninfo.setdefault(cn, {'qname': cn, 'stub': True})
+                self.rules['string-concatenation-as-stub'] += 1
+                return '%s(%s)' % (cn, ', '.join(texts))
         raise Unsupported('operator %s on %s (%s) at %s' % (name, ot.c, ot.kind, self.where(n)))
 
     def e_CXXDefaultArgExpr(self, n):
